@@ -46,7 +46,7 @@ var (
 	c16One    = big.NewInt(1)
 
 	c16Denoms      = []string{"uband", "uatom"}
-	c16AllowedSets = [][]string{{"uband"}, {"uband", "uatom"}, {}, {"uatom"}}
+	c16AllowedSets = [][]string{{"uband"}, {"uband", "uatom"}, {}, {"uatom"}, {"uband", "uband"}}
 	c16Vaults      = []string{"feeds", "feedsx", "tunnel", "a"}
 
 	// per-account genesis balances: realistic uband, an 18-decimals style second denom far above 2^63
@@ -200,7 +200,7 @@ func genC16(rt *rapid.T) c16Case {
 		case 7:
 			c.Ops = append(c.Ops, c16Op{K: "mkvault", Vault: vault()})
 		case 8:
-			c.Ops = append(c.Ops, c16Op{K: "params", Set: gen.Pick(rt, "pset", 3, 5, 1, 2)})
+			c.Ops = append(c.Ops, c16Op{K: "params", Set: gen.Pick(rt, "pset", 3, 5, 1, 2, 2)})
 		case 12:
 			// scenario: removal of a WHOLE delegation (the staking module deletes the record and asks the
 			// BeforeDelegationRemoved hook instead of AfterDelegationModified) at the lock boundary, from the validator
@@ -573,7 +573,7 @@ func runC16(c c16Case) *pbt.Verdict {
 	if nval < 2 || nval > 3 {
 		nval = 2 + c16Mod(nval, 2)
 	}
-	allowed0 := c16AllowedSets[c16Mod(c.Allowed, len(c16AllowedSets))]
+	allowed0 := c16AllowedSets[c16Mod(c.Allowed, 4)] // a genesis naming a denom twice is not a state the chain starts from
 	vals := make([]sim.ValSpec, nval)
 	for i := range vals {
 		vals[i] = sim.ValSpec{Tokens: 30_000_000}
@@ -1425,7 +1425,12 @@ func runC16(c c16Case) *pbt.Verdict {
 		case "params":
 			set := c16AllowedSets[c16Mod(op.Set, len(c16AllowedSets))]
 			where = fmt.Sprintf("op %d params %v", i, set)
-			passed, _, err := ch.GovExec(restaketypes.NewMsgUpdateParams(sim.GovAuthority(), restaketypes.NewParams(append([]string{}, set...))))
+			passed, gres, err := ch.GovExec(restaketypes.NewMsgUpdateParams(sim.GovAuthority(), restaketypes.NewParams(append([]string{}, set...))))
+			if err != nil && len(gres) == 1 && strings.Contains(err.Error(), "submit proposal failed") {
+				// the proposal itself was refused (a list naming a denom twice): nothing changes
+				v.Count("params_proposal_refused", 1)
+				passed, err = false, nil
+			}
 			if err != nil {
 				v.Failf("C16/finalize", "%s: governance run failed: %v", where, err)
 				return v
